@@ -123,7 +123,10 @@ def make_directivity(rng, tag, band_freqs=None, ones=False):
         except OSError:
             pass
     info = dict(kind=kind, n_recv=len(recv), n_freq=nf, ptype=ptype, radius=radius, n_meas=n_meas,
-                freqs=freqs, table=table)
+                freqs=freqs, table=table, recv_true=np.asarray(recv, dtype=float) * radius)
+    # the measured directions WRITTEN to the file are the ground truth for every expectation and
+    # for the model; what DirectivityMS parsed is compared against them separately
+    dms._verif_recv_true = info["recv_true"]
     return dms, info
 
 
@@ -174,7 +177,7 @@ def freq_tie(freqs, f):
 
 
 def ori_tokens(tok, dms, view, up):
-    tok.cmd("directivity").vecs(dms.receivers.cartesian).arr(dms.data.frequencies)
+    tok.cmd("directivity").vecs(dms._verif_recv_true).arr(dms.data.frequencies)
     tok.arr(np.real(dms.data.freq)).vec(view).vec(up)
     return tok
 
@@ -191,8 +194,14 @@ def lookup_case(spec):
     rng = np.random.default_rng([spec["seed"], 2000 + spec["idx"]])
     out = new_out()
     dms, info = make_directivity(rng, "l%d" % spec["idx"], ones=False)
-    recv = dms.receivers.cartesian
+    recv = info["recv_true"]
     table = info["table"]
+    parsed = np.asarray(dms.receivers.cartesian)
+    if parsed.shape != recv.shape or np.abs(parsed - recv).max() > 1e-9 * max(1.0, info["radius"]):
+        out["prop_failures"].append(dict(
+            test="measured_directions", ptype=info["ptype"], case=dict(seed=spec["seed"], idx=spec["idx"], lookup=True),
+            what="the measured directions read from the SOFA file (%s positions) are not the ones written to it"
+                 % info["ptype"]))
     view, up = draw_frame(rng)
     pos = rng.normal(size=3) * 3.0
     n_t = spec["n_targets"]
@@ -381,7 +390,7 @@ def scene_case(spec):
     dms, info = make_directivity(rng, "s%d" % spec["idx"], band_freqs=cfg["freqs"])
     ones, _ = make_directivity(np.random.default_rng([spec["seed"], 6000 + spec["idx"]]),
                                "o%d" % spec["idx"], band_freqs=cfg["freqs"], ones=True)
-    recv = dms.receivers.cartesian
+    recv = info["recv_true"]
     table = info["table"]
     if any(freq_tie(info["freqs"], f) for f in cfg["freqs"]):
         out["rejected"] = 1
